@@ -201,6 +201,7 @@ class C09(core.Check):
         cover = set()
         asked = {}
         steps = 0
+        trace = []
         for op in case["ops"]:
             steps += 1
             name = op["op"]
@@ -284,13 +285,14 @@ class C09(core.Check):
                         break
             else:
                 raise core.HarnessError(f"unknown op {op}")
+            trace.append([name, got[0], core.digest(got[1]) if got[0] == "ok" else got[1][1], len(fs.history)])
             if len(fs.fired_faults) > fired_before:
                 for f in fs.fired_faults[fired_before:]:
                     bump(f"fault.{f['op']}_schema_{f['err']}")
                 bump("faulted_calls")
         nontrivial = any(len(vs) >= 2 for vs in asked.values())
         ops_d = [{k: (v if k != "item" else [v["entry"], v["root"], v["chain"]]) for k, v in op.items()} for op in case["ops"]]
-        return {"violation": violation, "digest": core.digest([ops_d, case.get("faults")]), "nontrivial": nontrivial,
+        return {"violation": violation, "digest": core.digest([ops_d, case.get("faults"), trace]), "nontrivial": nontrivial,
                 "stats": stats, "steps": steps, "cover": sorted(cover)}
 
     def shrink_fields(self, case):
